@@ -24,7 +24,18 @@ PARTIAL = [
     "harness: repeat, rebuilt circuit, observing callback (and the sequence of intermediate placements shown to it), permuted "
     "order in one process, other seed in between, 1-core / all-core affinity, forced completion orders, and stream `o`: "
     "2-3 jobs with distinct non-zero noise / seeds / efforts / knobs, each alone in a fresh forked process and in 2-4 orders "
-    "in further fresh processes, per-job results equal, (c) for indeterminate values: every run is preceded by overwriting "
+    "in further fresh processes, per-job results equal, and stream `h` (object history, harness/c08_history.hpp): 1500 "
+    "(thorough: 12000) circuits, half of them with an added fixed obstruction macro on the rows, go through a random history "
+    "of 1-6 operations on ONE object - placement stages with other parameters, report / computeRows / hpwl / toString, "
+    "expandCellsToDensity on a copy and on the object, and every public mutator: setSolution (a fixed cell moved or turned, "
+    "movable cells scattered / restored), setCellX/Y, setCellIsFixed/Obstruction, setRows (same / shifted / trimmed / row "
+    "dropped / reordered), setupRows, setCellWidth/Height, setCellOrientation, setCellRowPolarity, setNetWeights - then the "
+    "same stage sequence runs on the object, on a twin rebuilt through the public setters from the object's getters and on a "
+    "copy, and the three results are compared bitwise (keys h:op:* count the operations executed, h:shape:* the histories "
+    "where derived data was computed on the object before a given mutator changed its inputs, e.g. "
+    "rows_computed_then_obstacles_or_rows_changed_by_setSolution_moving_a_fixed_obstruction).  Not covered by stream h: "
+    "histories longer than 6 operations, addNet / setNets after construction, the expansion helpers other than "
+    "expandCellsToDensity, histories across copies (copy, mutate the copy, assign back), (c) for indeterminate values: every run is preceded by overwriting "
     "the dead stack, the cached stacks of helper threads and freed heap blocks with changing patterns (plus forked runs with "
     "0x00 / 0xFF / 0xA5 / random patterns, where a crash is a difference too); the sanitizer-free build repeats all "
     "comparisons with glibc's M_PERTURB switched per run (ASan's allocator would hide heap reads); 40 (thorough: 150) small "
@@ -76,7 +87,8 @@ LEVEL_TEXT = ("Lean 4 theorems over the two-task protocol of GlobalPlacer::runLB
               "and final state for every meaning of the computations (exhaustive walk by `decide`, transferred to "
               "arbitrary value domains, lifted by induction over the number of lower-bound steps).  The real code is "
               "compared bit for bit across repeated runs, copies, permuted run orders in one process and across fresh "
-              "processes (jobs with different parameter sets in different orders), callbacks, core affinities and forced "
+              "processes (jobs with different parameter sets in different orders), object histories (random queries / stages / "
+              "mutators on one object, then the object against a twin rebuilt through the public setters and a copy), callbacks, core affinities and forced "
               "completion orders (hook H1), with dead stack / heap contents perturbed before every run; sanitizer-free "
               "re-run with M_PERTURB and a valgrind sample in both tiers; ThreadSanitizer run in the thorough tier.  "
               "Definite initialisation: a table of every scalar data member of the placement classes, every constructor / "
